@@ -139,6 +139,12 @@ where
             .ok_or(AuthError::InvalidToken)?;
 
         let mut session = user.session.unwrap();
+
+        // An expired session is no longer valid for anything, so it cannot be brought back to life
+        if !session.valid() {
+            return Err(AuthError::InvalidToken);
+        }
+
         session.refresh(self.config.default_refresh_lifetime);
 
         user.session = Some(session);
